@@ -521,3 +521,47 @@ BITS_ENC = Contract(
     external=['primitive-when-it-fits', 'primitive-content-padded-with-zeros', 'primitive-content-aligned', 'segments-in-order'],
     note='asOctets of the value object is an assumed model (eight bits to the octet, rounded up)')
 CONTRACTS = CONTRACTS + [BITS_ENC]
+
+
+# ---- CHOICE and ANY contents ------------------------------------------------------------------------------------------------
+CHOSEN = Obj('Asn1Value', {}, name='chosenAlternative')
+
+
+def _encode_alternative(ex, component, asn1Spec=None, **options):
+    from spec.smt import enc_chunk
+    import z3 as _z
+    z = _z.Const('enc.alternative', _z.SeqSort(_z.IntSort()))
+    ex.assume(inr(z))
+    return SeqV(z, 'bytes')
+
+
+CHOICE_ENC = Contract(
+    id='ber.encoder::ChoiceEncoder.encodeValue[value-object]', file=F, qual='ChoiceEncoder.encodeValue',
+    properties=['C01', 'C03', 'C13'],
+    params=dict(self=PObj('ChoiceEncoder'),
+                value=PConst(Obj('Choice', {}, {'getComponent': lambda ex, self: CHOSEN}, name='value')), asn1Spec=PConst(None),
+                encodeFun=PConst(FnV(_encode_alternative, 'encodeFun')), options=POptions(defMode=PBool(), maxChunkSize=PInt())),
+    globals={'chosen': CHOSEN},
+    calls={'encodeFun': _encode_alternative},
+    ensures=[
+        # X.690 8.13: the encoding of a CHOICE value is the encoding of the chosen alternative, nothing added
+        ('contents-are-the-chosen-alternative', 'result[0] == last_result("encodeFun") and '
+                                                'last_args("encodeFun")[0] is chosen and last_args("encodeFun")[1] is None'),
+        ('options-passed-on', 'last_kwargs("encodeFun").get("defMode", "absent") == old(options).get("defMode", "absent") and '
+                              'last_kwargs("encodeFun").get("maxChunkSize", "absent") == old(options).get("maxChunkSize", "absent")'),
+        ('constructed', 'result[1] is True and result[2] is True')])
+
+
+def _any_value(ex, env):
+    return Obj('Any', {}, {'asOctets': lambda ex2, self: env['content']}, name='value')
+
+
+ANY_ENC = Contract(
+    id='ber.encoder::AnyEncoder.encodeValue[value-object]', file=F, qual='AnyEncoder.encodeValue', properties=['C01', 'C03', 'C18'],
+    params=dict(self=PObj('AnyEncoder'), content=PBytes(), value=PDerived(_any_value), asn1Spec=PConst(None),
+                encodeFun=PConst(None), options=POptions(defMode=PBool(), maxChunkSize=PInt())),
+    ensures=[
+        # an ANY value is already an encoding: its octets go out verbatim, never segmented whatever maxChunkSize says
+        ('octets-verbatim', 'result[0] == content and result[2] is True'),
+        ('framing-follows-the-length-mode', 'result[1] == (not options.get("defMode", True))')])
+CONTRACTS = CONTRACTS + [CHOICE_ENC, ANY_ENC]
